@@ -4,7 +4,7 @@ from evalutil import *
 
 ID = "C05"
 LEVEL = "proof"
-MODULES = ["H3Proofs.Props.C05", "H3Proofs.Props.C05Neighbor", "H3Proofs.Props.C05Bfs", "H3Proofs.Props.C05Symm", "H3Proofs.Props.C05Array", "H3Proofs.Props.C05Mode", "H3Proofs.Props.C05Valid", "H3Proofs.Props.C05Valid2", "H3Proofs.Props.C05Pent", "H3Proofs.Props.C05Res1a", "H3Proofs.Props.C05Res1b", "H3Proofs.Props.C05Ring", "H3Proofs.Props.C05All"]
+MODULES = ["H3Proofs.Props.C05", "H3Proofs.Props.C05Neighbor", "H3Proofs.Props.C05Bfs", "H3Proofs.Props.C05Symm", "H3Proofs.Props.C05Array", "H3Proofs.Props.C05Mode", "H3Proofs.Props.C05Valid", "H3Proofs.Props.C05Valid2", "H3Proofs.Props.C05Pent", "H3Proofs.Props.C05Res1a", "H3Proofs.Props.C05Res1b", "H3Proofs.Props.C05Ring", "H3Proofs.Props.C05All", "H3Proofs.Props.C05Gen"]
 THEOREMS = "auto"
 ASSUMPTIONS = ["hand-written model of h3NeighborRotations, _gridDiskDistancesInternal (array-faithful), the unsafe "
                "ring walks, gridRingUnsafe and areNeighborCells, tied to the code by exact correspondence (slot "
